@@ -203,7 +203,7 @@ def wave_case(res, case):
             res.violation(f'{key0}/perm-{pname}/ports', case, f'lane permutation {pname}: results do not follow their stimuli {nl}')
         res.count('cfg_perm')
     # propagate only the first k lanes
-    ks = range(1, n + 1) if tier == 'thorough' and n <= 40 else sorted({1, 2, 7, 8, n // 2, n - 1, (rot * 5) % n + 1})
+    ks = range(1, n + 1) if tier == 'thorough' and n <= 40 else sorted(k for k in {1, 2, 7, 8, n // 2, n - 1, (rot * 5) % n + 1} if 1 <= k <= n)      # the rule says k in 1..n (k = 0 is not a restriction to a prefix)
     for k in ks:
         for cuda in (False, True):
             if tier == 'quick' and (k + cuda + rot) % 2: continue
